@@ -1,4 +1,5 @@
 import NavisModel.Model.Units
+import NavisModel.Model.UnitsHist
 import NavisModel.Drv.Proto
 /-!
 Line protocol for C15 (sections are separated by ` | `).
@@ -25,6 +26,14 @@ Commands
 * `c15.fromtable <D | arg arg …>` → units or `ERR`: construction from a bare table
 * `c15.same <tolData> <radii01> | <A> | <B>` → `1|0` (`samePhysB`)
 * `c15.cmp <tolData> <tolUnits> | <A> | <B>` → `ok | diff:fields`
+* `c15.hist <tolData> <tolUnits> <scalar01> | <in> | <par rows, comma> | <step> <step> … | <out> | <keys> | <views>` →
+  `model=<neuron or ERR> corr=… caches=<ok|diff:model-keys> views=<ok|diff:names|na> phys=<1|0|na>`
+  (`step`: `w:a,b,…` — the cached attributes present after a warming step (absent ones are computed from the current
+  table) —, `mul:<factor>:<p>`, `div:…`, `add:<factor>:0`, `sub:…`, `c:<tgt>:<p>`; `keys`: the cached attributes navis
+  holds after the history; `views`: `name=v,v,…;…` with `_igraph`, `_graph_nx` (edge weight of every row), `d2r`
+  (distance to root of every row), `_cable_length`; `views`: navis' values against `viewW elen` of the model's final state
+  — the model keeps exactly the caches the *generated* exclude lists keep —; `phys`: the checkers `histPhysB / histPathB /
+  histCableB` (sound by `Props.C15.histPhysB_sound …`) on navis' values against the neuron the history started from)
 -/
 namespace Navis.Drv.C15
 open Navis.Units Navis.Proto
@@ -264,6 +273,77 @@ def parseOp (s : String) : Option Op :=
   | "reinitcut" => some (.reinitAfterCut dropLast)
   | _ => none
 
+
+/-! ### histories -/
+
+def parseStep (tok : String) : Option Step :=
+  match (trim tok).splitOn ":" with
+  | ["w", attrs] => some (.warm (strList attrs))
+  | ["w"] => some (.warm [])
+  | ["c", tgt, p] => do
+    let tgt ← (trim tgt).toInt?; let p ← (trim p).toInt?
+    pure (.convert tgt p)
+  | [op, sh, vals, p] => do
+    let f ← parseFactor (sh ++ ":" ++ vals); let p ← (trim p).toInt?
+    match op with
+    | "mul" => pure (.scale false f p)
+    | "div" => pure (.scale true f p)
+    | "add" => pure (.shift false f)
+    | "sub" => pure (.shift true f)
+    | _ => none
+  | _ => none
+
+def parseViews (s : String) : Option (List (String × List Rat)) :=
+  let s := trim s
+  if s.isEmpty || s == "-" then some [] else
+  (s.splitOn ";").mapM fun part =>
+    match (trim part).splitOn "=" with
+    | [k, v] => (parseRats v).map fun l => (trim k, l)
+    | _ => none
+
+def sortedKeys (l : List String) : List String := (l.toArray.qsort (· < ·)).toList
+
+def runHistCmd (tolD tolU : Rat) (scalar : Bool) (x : Neuron) (par : List Int) (steps : List Step)
+    (out : Option Neuron) (keys : List String) (views : List (String × List Rat)) : String :=
+  let s0 : Skel := ⟨x, par, []⟩
+  let model : Option Skel := runHist s0 steps
+  let tolP := if tolD < tolU then tolU else tolD
+  let corr := showCorr tolD tolU (model.map (·.nrn)) out
+  let caches := match model with
+    | some m =>
+      let mk := sortedKeys ((m.cache.map (fun (e : String × List V3) => e.1)).filter (fun a => Gen.Units.treeTempAttr.contains a && a != "_memory_usage"))
+      let ik := sortedKeys (keys.filter (· != "_memory_usage"))
+      if mk == ik then "ok" else "diff:" ++ ",".intercalate mk
+    | none => "na"
+  let viewsR := match model with
+    | some m =>
+      if exactEdges m then
+        let bad := views.filter fun (kv : String × List Rat) =>
+          match kv.1 with
+          | "_igraph" => !allClose tolP kv.2 (viewW elen m "_igraph")
+          | "_graph_nx" => !allClose tolP kv.2 (viewW elen m "_graph_nx")
+          | "d2r" => !allClose tolP kv.2 ((List.range par.length).map (pathToRoot (viewW elen m "_graph_nx") par par.length))
+          | "_cable_length" => !allClose tolP kv.2 [cable (viewW elen m "_cable_length")]
+          | _ => false
+        if bad.isEmpty then "ok" else "diff:" ++ ",".intercalate (bad.map (fun (kv : String × List Rat) => kv.1))
+      else "na"
+    | none => "na"
+  let phys := match out with
+    | some o =>
+      if scalar && isoPos o.units && x.units.iso && exactEdges s0 then
+        b01 (views.all fun (kv : String × List Rat) =>
+          match kv.1 with
+          | "_igraph" => histPhysB tolP s0 o.units kv.2
+          | "_graph_nx" => histPhysB tolP s0 o.units kv.2
+          | "d2r" => histPathB tolP s0 o.units kv.2
+          | "_cable_length" => match kv.2 with
+            | [c] => histCableB tolP s0 o.units c
+            | _ => false
+          | _ => true)
+      else "na"
+    | none => "na"
+  s!"model={showNeuron? (model.map (·.nrn))} corr={corr} caches={caches} views={viewsR} phys={phys}"
+
 def sections (s : String) : List String := (s.splitOn "|").map trim
 
 def run (cmd rest : String) : Option String :=
@@ -321,6 +401,14 @@ def run (cmd rest : String) : Option String :=
     | [tD, tU] => do
       let tD ← parseTol tD; let tU ← parseTol tU; let a ← parseNeuron a; let b ← parseNeuron b
       pure (showCorr tD tU (some a) (some b))
+    | _ => none
+  | "hist", [hd, x, par, steps, out, keys, views] =>
+    match words hd with
+    | [tD, tU, sc] => do
+      let tD ← parseTol tD; let tU ← parseTol tU
+      let x ← parseNeuron x; let par ← intList? par; let steps ← (words steps).mapM parseStep
+      let out ← parseNeuron? out; let views ← parseViews views
+      pure (runHistCmd tD tU (sc == "1") x par steps out (strList keys) views)
     | _ => none
   | "round", [q] => do
     let q ← parseRat q
